@@ -60,6 +60,10 @@ def canon(c, v):
     return v
 
 
+def struct_header(rng):
+    return txgen.struct_bytes(rng, 80)
+
+
 def gen_cases(rng, tier):
     T = tier == "thorough"
     out = []
@@ -100,6 +104,17 @@ def gen_cases(rng, tier):
         segfirst = sorted(range(len(txs)), key=lambda i: txs[i][3] is None)     # a segwit transaction first
         s2 = [sers[i] for i in segfirst]
         out.append(case("block-deser-ids-segwit-first", "block_ids", rng.randbytes(80) + txgen.ref_cs(len(s2)) + b"".join(s2)))
+    # transactions whose FIELD VALUES contain structural bytes (00 01 inside version/locktime/sequence/..., fd/fe/ff),
+    # back to back and inside a block (alone / with trailing data: they are part of txgen.grammar above)
+    st = txgen.structural(rng, tier)
+    pick = [t for cls, t in st if cls.startswith("struct-version") and cls.endswith("segwit")]
+    pick = rng.sample(pick, 24 if T else 10) + [t for cls, t in st if cls.startswith("struct-all-fields")][: (40 if T else 6)]
+    rng.shuffle(pick)
+    psers = [txgen.ref_ser(t) for t in pick]
+    for k in range(len(pick)):
+        tail = b"".join(psers[k + 1:])
+        out.append(case("block-of-tx-structural-fields", "tx_deser", psers[k] + tail, t=enc(pick[k]), nrest=len(tail)))
+    out.append(case("block-deser-ids-structural-fields", "block_ids", struct_header(rng) + txgen.ref_cs(len(psers)) + b"".join(psers)))
     # a block whose transaction count needs a 3-byte CompactSize (253+): offsets must follow the count's real width
     many = [txgen.ref_ser(txgen.gen_tx(rng, n_in=1, n_out=1, segwit=(i % 3 == 0))) for i in range(253 if not T else 300)]
     out.append(case("block-deser-ids-253", "block_ids", rng.randbytes(80) + txgen.ref_cs(len(many)) + b"".join(many), timeout=120))
